@@ -304,10 +304,25 @@ def run(run):
                 if rank > CMP_RANK_BOUND:
                     bad.append((code, col.hex(), rank))
             run.count("cmp_worst_rank", worst)
+            # 2-opt consistency with the reference: exchanging the colours of two codes must not bring both
+            # closer to mge_viewer2.CMP, except for the pairs where the pinned table already is not locally optimal
+            if len(cmp_table) == 64:
+                dist = lambda a, b: sum((x - y) ** 2 for x, y in zip(a, b)) ** 0.5  # noqa
+                newbad = []
+                for i in range(64):
+                    for j in range(i + 1, 64):
+                        cur = dist(cmp_table[i], ref[i]) + dist(cmp_table[j], ref[j])
+                        sw = dist(cmp_table[j], ref[i]) + dist(cmp_table[i], ref[j])
+                        if sw < cur - 1e-9 and (i, j) not in CMP_PINNED_NON_OPTIMAL:
+                            newbad.append((i, j, round(cur - sw, 1)))
+                run.count("cmp_pairs_checked", 2016)
+                if newbad:
+                    run.violation("cmp-table-pair-exchange", ["mge-cmp"], case, f"composite codes whose colours look exchanged relative to mge_viewer2.CMP: {newbad[:6]}")
             if bad:
                 run.violation("cmp-table-far-from-reference", ["mge-cmp"], case, f"codes whose RGB is not among the {CMP_RANK_BOUND + 1} nearest colours of mge_viewer2.CMP: {bad[:8]}")
 
 
+CMP_PINNED_NON_OPTIMAL = {(1, 17), (1, 18), (1, 19), (1, 34), (3, 15), (3, 18), (3, 19), (5, 7), (5, 9), (5, 20), (5, 21), (5, 23), (5, 39), (6, 7), (6, 22), (6, 23), (6, 39), (8, 23), (10, 12), (10, 28), (10, 44), (11, 12), (11, 13), (11, 15), (11, 28), (12, 13), (12, 28), (13, 28), (15, 18), (15, 28), (15, 34), (15, 44), (17, 31), (19, 34), (22, 23), (22, 39), (26, 42), (26, 43), (26, 58), (28, 29), (29, 44), (31, 34), (48, 63), (49, 50), (61, 62)}
 CMP_RANK_BOUND = 25  # worst rank observed on the pinned tree (weak oracle, see DESIGN C16)
 
 
